@@ -70,13 +70,15 @@ def sub_view(proj, si, names_map=None):
 def _impl_task(item):
   import numpy as np
   scn, seed = item
-  out = {"key": synth.scn_key(scn), "problems": [], "outcome": None, "obs": None}
+  out = {"key": synth.scn_key(strip(scn)), "problems": [], "outcome": None, "obs": None}
   try:
     model, info = synth.build(scn, seed)
   except synth.Unrealisable as e:
     out["unreal"] = str(e)
     return out
   scn_c = dict(scn, codes=info["codes"])
+  if scn.get("nosig"):
+    scn_c["nosig"] = scn["nosig"]
   multi = pipeline.run_impl(scn_c, seed=seed, model=model, info=info)
   out["outcome"] = (multi["outcome"], multi["why"])
   parts = []
@@ -107,6 +109,8 @@ def _impl_task(item):
     sp = project.project(p["out_bytes"])
     a, b = sub_view(mp, si), sub_view(sp, 0)
     for field in ("ops", "tensors", "gins", "gouts", "signature"):
+      if field == "signature" and si in scn.get("nosig", ()):
+        continue      # this subgraph is not exported by any signature inside the pair
       if a[field] != b[field]:
         out["problems"].append(("subgraph %d %s" % (si, field), "inside the pair %s, alone %s" % (str(a[field])[:300], str(b[field])[:300])))
   return out
@@ -176,7 +180,9 @@ def main():
                       {"property": "C19", "scenario": d["scn"], "clause": "design-independent", "pair": a, "alone": b})
   # ---- implementation
   keys = common.sample_keep(sorted(pairs), 500 if args.tier == "quick" else 20000, args.seed)
-  items = [(strip(pairs[k]["scn"]), args.seed) for k in keys]
+  # in a third of the pairs the second subgraph is not exported by any signature def (a body / helper subgraph)
+  import zlib
+  items = [(dict(strip(pairs[k]["scn"]), **({"nosig": [1]} if zlib.crc32(k.encode()) % 3 == 0 else {})), args.seed) for k in keys]
   t0 = time.time()
   import concurrent.futures as cf
   results = []
